@@ -141,6 +141,14 @@ func c11Hang(d *vCtx) error {
 				}
 			}
 		}
+		// the user pauses and continues while the buffer size is still being probed; nothing else goes wrong:
+		// every worker must get going again and both sides must return
+		for _, g := range []int{8, 9, 10, 12} {
+			jobs = append(jobs, job{big, e2ePlan{Pause: &e2ePause{G: g, Phase: "after", ResumeMs: 300, Cycles: 1}, CheckLeft: true}})
+			if thorough || g%2 == 0 {
+				jobs = append(jobs, job{&bigDown, e2ePlan{Pause: &e2ePause{G: g, Phase: "after", ResumeMs: 300, Cycles: 1}, CheckLeft: true}})
+			}
+		}
 		// acks go silent while the buffer size is still being probed (known scenario), both directions
 		for _, k := range []int{3, 5, 6, 8} {
 			jobs = append(jobs, job{big, e2ePlan{Silence: &e2eSil{Dir: "s2c", K: k}, CheckLeft: true}})
